@@ -208,6 +208,28 @@ def one(job):
     except wire.FrameError as e:
         res["fails"].append(("baseline", "fault-free run", f"bad-frame:{e}", blob0))
         return res
+    eps = []
+    for k in range(len(mx.kinds)):
+        c, proto = conn_of(mx, k)
+        eps.append({"cip": c.cip.hex(), "cport": c.cport, "sip": c.sip.hex(), "proto": proto})
+    # reference without the victim flow at all: what the bystanders export when the (possibly undecryptable) flow is
+    # simply absent — every faulted run, the key-less ones included, must leave them exactly there
+    alone_items = [it for it, o in zip(mx.items, mx.owners) if o != 0]
+    alone = tool.run(wire.pcapng(alone_items), mx.keylog_text())
+    if alone.crashed:
+        res["fails"].append(("baseline", "bystanders-only run", alone.signature(), blob0))
+        return res
+    try:
+        ap = wire.read_output(alone.out)
+        for k in range(1, len(mx.kinds)):
+            if fingerprint(ap, mx, k) != base_fp[k]:
+                res["fails"].append(("presence", "the victim flow is present (no fault yet)",
+                                     f"bystander-changed:{k}:{mx.kinds[k][0]}", dict(blob0, kind="presence", endpoints=eps, baseline={
+                                         "capture_hex": wire.pcapng(alone_items).hex(), "keylog": mx.keylog_text(), "argv": []})))
+                return res
+    except wire.FrameError as e:
+        res["fails"].append(("baseline", "bystanders-only run", f"bad-frame:{e}", blob0))
+        return res
     truth = victim_truth(mx)
     faults = make_faults(mx, rng, exhaustive)
     t_end = mx.items[-1][1]
@@ -217,10 +239,6 @@ def one(job):
         pos = rng.randrange(len(mx.items) + 1)
         faults.append(("udp-noise", f"{len(noise)} arbitrary UDP datagrams inserted at {pos}",
                        mx.items[:pos] + noise + mx.items[pos:], mx.keylog))
-    eps = []
-    for k in range(len(mx.kinds)):
-        c, proto = conn_of(mx, k)
-        eps.append({"cip": c.cip.hex(), "cport": c.cport, "sip": c.sip.hex(), "proto": proto})
     for kind, what, items, kl in faults:
         res["n_faults"] += 1
         res["kinds"][kind] = res["kinds"].get(kind, 0) + 1
@@ -290,9 +308,19 @@ def run(ctx):
     ctx.assumptions = ["bystander equality is judged on the strictly decoded output packets of that connection (timestamps, "
                        "addresses, flags, seq/ack, payload)"]
     import session_corr
-    ctx.prove(["TLX.Props.C03"])
-    ctx.require_theorems(session_corr.THEOREMS_C03)
+    import c02_model
+    import m1_mainloop
+    quic = ["q2a_dissect", "q2b_session"]
+    ctx.gen_tables.update(m1_mainloop.regen())
+    ctx.prove(["TLX.Props.C03", "TLX.Props.C04"] + c02_model.modules(quic))
+    ctx.require_theorems(session_corr.THEOREMS_C03 + [t for t in c02_model.theorems(quic) if t.rsplit(".", 1)[1] in (
+        "dissect_total", "dissect_loop_total", "dissect_progress", "session_total", "session_total_run",
+        "wrong_keys_export_nothing", "wrong_keys_export_nothing_fresh", "session_total_counterexample")] + [
+        "TLX.Props.C04." + t for t in ("tls_solo_equals_merged", "quic_solo_equals_merged", "tls_quic_independent",
+                                       "unrelated_ignored", "empty_cid_never_chosen", "short_never_creates")])
     session_corr.correspond(ctx)      # ties TLX.Session (the model the theorems are about) to the real Session
+    c02_model.run_model(ctx, quic)    # ties the QUIC dissector and packet-level session models to the real code
+    m1_mainloop.correspond(ctx)       # ties the main-loop model (routing: the bystander clause) to the real code
     explore(ctx)
 
     def search(c):
